@@ -298,6 +298,47 @@ Proof.
     eapply sref_dep; [| |exact H]; [apply store_extends_put|reflexivity].
 Qed.
 
+Lemma run_edit_sref : forall w l m msg,
+  stack_ref_has_parent w -> stack_ref_has_parent (fst (run_edit w l m msg)).
+Proof.
+  intros w l m msg H. unfold run_edit, put.
+  destruct (match l with Some o => _ | None => _ end) as [loc_l|]; [|exact H].
+  destruct (open_stack PAllow w) as [op|] eqn:Eo; [apply (fun E => open_sref _ _ _ E H) in Eo|exact H].
+  destruct (negb (head_top_ok op)); [sr|].
+  match goal with |- stack_ref_has_parent (fst (rres_bind _ ?r _)) =>
+    destruct r as [pn| |]; cbn [rres_bind]; [|sr|sr] end.
+  destruct (pm_get _ pn) as [pc|]; [|sr].
+  destruct (get _ pc) as [old|]; [|sr].
+  destruct (_ && _); [sr|].
+  apply transact_sref; [apply sref_with_objs; [apply store_extends_put|assumption]|].
+  apply frame_edit_body.
+Qed.
+
+Lemma run_rebase_sref : forall w tg,
+  stack_ref_has_parent w -> stack_ref_has_parent (fst (run_rebase w tg)).
+Proof.
+  intros w tg H. unfold run_rebase.
+  destruct (open_stack PRequire w) as [op|] eqn:Eo; [apply (fun E => open_sref _ _ _ E H) in Eo|exact H].
+  destruct (resolve_gtarget (op_world op) tg) as [target|]; [|sr].
+  destruct (Nat.eqb target (op_base op)); [sr|].
+  destruct (negb (head_top_ok op)); [sr|].
+  destruct (dirty (op_world op)); [sr|].
+  match goal with |- context [transact ?o ?a ?f ?m] =>
+    assert (Hm : stack_ref_has_parent (fst (transact o a f m)));
+    [|destruct (transact o a f m) as [w2 x]] end.
+  { apply transact_sref; [exact Eo|]. cbv beta. cbn [frame]. apply fr_pop. }
+  cbn [fst] in Hm. destruct x; try exact Hm.
+  match goal with |- context [open_stack PRequire ?w3] =>
+    assert (Hm3 : stack_ref_has_parent w3)
+      by (eapply sref_dep; [| |exact Hm]; [apply store_extends_refl|reflexivity]);
+    destruct (open_stack PRequire w3) as [op3|] eqn:Eo3;
+      [apply (fun E => open_sref _ _ _ E Hm3) in Eo3|exact Hm3] end.
+  destruct (log_extmods_first op3) as [op4|] eqn:El; [|exact Eo3].
+  apply (log_extmods_first_sref _ _ Eo3) in El.
+  destruct (negb (head_top_ok op4)); [sr|].
+  apply transact_sref; [exact El|apply frame_push_patches].
+Qed.
+
 Theorem step_stack_ref_has_parent : forall lower_s w c,
   stack_ref_has_parent w -> stack_ref_has_parent (fst (step lower_s w c)).
 Proof.
@@ -323,6 +364,8 @@ Proof.
   - now apply run_reset_sref.
   - now apply run_repair_sref.
   - now apply run_log_clear_sref.
+  - now apply run_edit_sref.
+  - now apply run_rebase_sref.
   - destruct (open_stack PAllow w) as [op|] eqn:Eo; [|exact H]. now apply (open_sref _ _ _ Eo).
   - now apply run_git_sref.
   - now apply run_git_sref.
